@@ -19,6 +19,16 @@ CHECKS = {
         technique="TLA+ model (Link.tla) checked by TLC + TLC trace validation of recorded link events; stimuli from TLC -simulate",
     ),
 }
+CHECKS["C12"] = dict(
+    category="model_checking",
+    text="NodePower.tla: TLC exhausts all interleavings of shutdown/startup/reset/other requests, ticks, incoming frames and send attempts for all duration "
+    "pairs 0..3 (legal transitions only, exact stay in transitional states, interfaces down unless ON, nothing running when OFF, refusals, liveness of every "
+    "started transition); TLC-generated behaviours are replayed on a real two/three-node network around a device under test of every node type "
+    "(computer, server, printer, switch, router, firewall, wireless router) and the projected state after every request/tick/frame is validated by TLC "
+    "against NodePowerTrace.tla.",
+    design_ref="6/C12",
+    technique="TLA+ model (NodePower.tla) checked by TLC incl. liveness + TLC-generated behaviours replayed on real nodes + TLC trace validation",
+)
 
 REASON_TODO = "check not built yet in this session (planned, see DESIGN.md 10); nothing is claimed for it"
 
